@@ -280,7 +280,9 @@ def _op_attrs(op):
     import dataclasses
 
     out = {"__class__": type(op).__name__}
-    fields = [f.name for f in dataclasses.fields(op)] if dataclasses.is_dataclass(op) else []
+    # the fields that make up the object's identity (dataclass equality): scratch state a class keeps beside them
+    # (memo tables declared compare=False) is nobody's business
+    fields = [f.name for f in dataclasses.fields(op) if f.compare] if dataclasses.is_dataclass(op) else []
     for name in fields:
         val_ = getattr(op, name)
         out[name] = _render(val_)
